@@ -85,6 +85,21 @@ CHECKS = {
         "Trusts the rollback model in vlib/tmodel.py; K5 attributed only if "
         "the leak deviation model reproduces text, handler log and call log.",
         "DESIGN.md 3/C13"),
+    "C07": (
+        "exploration",
+        "Hypothesis generation of attribute merges + reference merge model "
+        "+ independent tag reader",
+        "One element with 0..5 static attributes and 0..5 tal:attributes "
+        "entries (named / dictionary / overlapping case variants / escapes / "
+        "default / nothing) over 17 value kinds and four boolean-attribute "
+        "configurations is rendered; the start tag is read back with an "
+        "independent scanner and compared, as an ordered list of (name, "
+        "quote, value) plus a set of dictionary-supplied attributes, with a "
+        "reference model of the merge; duplicates are always a violation.",
+        "Trusts the merge model in checks/c07.py; K6 and K10 are attributed "
+        "only through their deviation models; position of dictionary-"
+        "supplied attributes is not asserted.",
+        "DESIGN.md 3/C07"),
     "C08": (
         "exploration",
         "exhaustive enumeration of (length, position) against closed forms; "
